@@ -126,7 +126,15 @@ def run(ctx):
         ctx.violation("model evaluation failed", {"theorem_or_correspondence": "C19 cases.v evaluation", "log": logs[:2]},
                       found_input=False)
         return
-    mism = [i for r in res for i in r]
+    mism_all = [i for r in res for i in r]
+    # loading a configuration OUTSIDE the property's quantifier (non-canonical version, unclean path, invalid UTF-8):
+    # a disagreement there is recorded but is not a violation of C19 (the property does not constrain it)
+    lenient = [i for i in mism_all if cases[i].startswith("CLoad") and not descr[i]["valid"]]
+    mism = [i for i in mism_all if i not in lenient]
+    ctx.coverage["correspondence"]["disagreements_outside_quantifier"] = len(lenient)
+    if lenient:
+        ctx.log("note: %d model/implementation differences when loading NOT-valid configurations (outside C19), e.g. %s"
+                % (len(lenient), descr[lenient[0]]["kind"]))
     ctx.coverage["correspondence"]["cases"] = len(cases)
     ctx.coverage["correspondence"]["mismatches"] = len(mism)
     ctx.log("cases=%d mismatches=%d oracle_failures=%d valid_configs=%d" % (len(cases), len(mism), len(oracles), nvalid))
